@@ -121,7 +121,19 @@ impl Analysis<Expr> for ExprAnalysis {
             unsafe { std::mem::transmute::<&mut f32, &mut F32>(&mut to.rows) },
             F32::from(from.rows),
         );
-        let merge_order = egg::merge_max(&mut to.orderby, from.orderby);
+        // The members of a class are alternative physical plans and any of them may be extracted:
+        // the class is ordered only by what every member guarantees (a merge join is ordered by
+        // its keys, the hash join and the nested loop join in the same class are not).
+        let merge_order = {
+            let common = (to.orderby.iter().zip(from.orderby.iter()))
+                .take_while(|(a, b)| a == b)
+                .count();
+            let did = DidMerge(common < to.orderby.len(), common < from.orderby.len());
+            if did.0 {
+                to.orderby = to.orderby[..common].into();
+            }
+            did
+        };
         merge_const | merge_range | merge_columns | merge_schema | merge_rows | merge_order
     }
 
